@@ -608,7 +608,31 @@ Definition eng_token (inp impl : node) : verdict :=
         (c06, c10) in
       let ob k := nth k (nlist impl) Null in
       let '(c06a, c10a) := judge (ob 0%nat) (ob 1%nat) (ob 2%nat) rg rd ri in
-      let '(c06b, c10b) := if lenient then judge (ob 4%nat) (ob 5%nat) (ob 6%nat) rg0 rd0 ri0 else (true, true) in
+      (* the entry points that do not ask for canonical bytes need not agree with one another on input no encoder of the library
+         writes: some may refuse what others take. Each is judged on its own: what it returns is what the model decodes, or
+         nothing. [settle] gives the observation to judge: the expected one when every member is fine, else an offending one *)
+      let settle (o expected : node) : node :=
+        match o with
+        | List (Str k :: members) =>
+            if str_eqb k (lit "disagree") then
+              let obs_of (mem : node) := match mem with List [_; x] => x | _ => mem end in
+              let fine (mem : node) := is_err_obs (obs_of mem) || node_eqb (obs_of mem) expected in
+              if forallb fine members then (if existsb (fun mem => node_eqb (obs_of mem) expected) members then expected else List [Str (lit "err")])
+              else match filter (fun mem => negb (fine mem)) members with bad :: _ => obs_of bad | [] => o end
+            else o
+        | _ => o
+        end in
+      let og4 := settle (ob 4%nat) (fields_res any_fields rg0) in
+      let od5 := settle (ob 5%nat) (fields_res dlg_fields rd0) in
+      let oi6 := settle (ob 6%nat) (fields_res inv_fields ri0) in
+      let '(c06b, c10b) := if lenient then judge og4 od5 oi6 rg0 rd0 ri0 else (true, true) in
+      let settled (k : nat) (o' expected : node) := negb (node_eqb (ob k) o') && (node_eqb o' expected || is_err_obs o') in
+      let m := if lenient && c06b && c10b &&
+                  (settled 4%nat og4 (fields_res any_fields rg0) || settled 5%nat od5 (fields_res dlg_fields rd0) || settled 6%nat oi6 (fields_res inv_fields ri0))
+               then List (firstn 4 (nlist m) ++ [if settled 4%nat og4 (fields_res any_fields rg0) then ob 4%nat else nth 4 (nlist m) Null;
+                                                 if settled 5%nat od5 (fields_res dlg_fields rd0) then ob 5%nat else nth 5 (nlist m) Null;
+                                                 if settled 6%nat oi6 (fields_res inv_fields ri0) then ob 6%nat else nth 6 (nlist m) Null])
+               else m in
       {| model_obs := m; violated := (if c06a && c06b then [] else [lit "C06"]) ++ (if c10a && c10b then [] else [lit "C10"]) |}
   (* a sequence of constructor calls sharing a caller's value: the observation is what the caller asked for *)
   | List [Str op; List [want]] =>
